@@ -1185,6 +1185,7 @@ func checkNothingInvented(w *World, c *Check, t *tables) {
 func checkCarriedState(w *World, c *Check, rule string) {
 	n := 0
 	for _, f := range w.Funcs {
+		inFn := 0 // the key counts per function: another function gaining a Visit call must not rename this one's
 		for _, call := range callsIn(f) {
 			cal := call.Common().StaticCallee()
 			if cal == nil || cal.Object() == nil || cal.Object().Pkg() == nil || !strings.HasSuffix(cal.Object().Pkg().Path(), "fastjson") || cal.Name() != "Visit" {
@@ -1196,7 +1197,8 @@ func checkCarriedState(w *World, c *Check, rule string) {
 			}
 			g := mc.Fn.(*ssa.Function)
 			n++
-			key := fmt.Sprintf("%s:visit#%d", funcName(f), n)
+			inFn++
+			key := fmt.Sprintf("%s:visit#%d", funcName(f), inFn)
 			bad := ""
 			for fi, fv := range g.FreeVars {
 				pt, ok := types.Unalias(fv.Type()).Underlying().(*types.Pointer)
